@@ -133,6 +133,18 @@ for _f, _ty, _ns in (('src/resolve.rs', 'resolveerr', 'resolve'), ('src/assign.r
         dict(id=f'{_N}ErrLabels', file=_f, fn='labels', impl=r"impl Diagnostic for Error", lean=f'{_ns}.Error.labels',
              params=[('self', 'errself:' + _ty), ('origin', 'bufref')], ret='pure', rtype='Option (Nat × Nat)', imports=[f'{_N}ErrPosition', f'{_N}ErrOffset'], errns=_ns),
     ]
+PE_IMPL = r"impl ParseError \{"
+FUNCS += [
+    dict(id='ParseErrOffset', file='src/pointer.rs', fn='offset', impl=PE_IMPL, lean='ParseError.offset', params=[('self', 'errself:parseerror')], ret='pure', rtype='Nat'),
+    dict(id='ParseErrPointerOffset', file='src/pointer.rs', fn='pointer_offset', impl=PE_IMPL, nth_impl=1, lean='ParseError.pointer_offset', params=[('self', 'errself:parseerror')], ret='pure', rtype='Nat'),
+    dict(id='ParseErrSourceOffset', file='src/pointer.rs', fn='source_offset', impl=PE_IMPL, nth_impl=1, lean='ParseError.source_offset', params=[('self', 'errself:parseerror')], ret='pure', rtype='Nat'),
+    dict(id='ParseErrCompleteOffset', file='src/pointer.rs', fn='complete_offset', impl=PE_IMPL, nth_impl=1, lean='ParseError.complete_offset', params=[('self', 'errself:parseerror')], ret='pure', rtype='Nat',
+         imports=['ParseErrSourceOffset', 'ParseErrPointerOffset'], errns='ParseError'),
+    dict(id='ParseErrInvalidEncodingLen', file='src/pointer.rs', fn='invalid_encoding_len', impl=PE_IMPL, lean='ParseError.invalid_encoding_len',
+         params=[('self', 'errself:parseerror'), ('subject', 'bytes')], ret='pure', rtype='Nat', imports=['ParseErrCompleteOffset'], errns='ParseError'),
+    dict(id='ParseErrLabels', file='src/pointer.rs', fn='labels', impl=r"impl Diagnostic for ParseError", lean='ParseError.labels',
+         params=[('self', 'errself:parseerror'), ('subject', 'bytes')], ret='pure', rtype='Option (Nat × Nat)', imports=['ParseErrCompleteOffset', 'ParseErrInvalidEncodingLen'], errns='ParseError'),
+]
 # free functions of the crate that take a `&mut` into the document: (arity, result type); the document is threaded through them
 DOCCALLS = {'assign_array': (6, 'res(assigned;assignerr)'), 'assign_object': (4, 'assigned'), 'assign_scalar': (3, 'assigned'),
             'assign_value': (3, 'res(opt(val);assignerr)')}
@@ -146,7 +158,7 @@ SIBLINGS = {'split_back': ('Pointer.split_back', 'opt(tuple:ptrself,tok)'), 'spl
 
 LEANTY = {'nat': 'Nat', 'bool': 'Bool', 'bytes': 'Bytes', 'cow': 'Cow', 'optnat': 'Option Nat', 'toklist': 'List Bytes',
           'tok': 'Bytes', 'index': 'Index', 'bound': 'Bound', 'ptr': 'Bytes', 'span': 'Span', 'tokself': 'Bytes',
-          'intocow': 'Bytes', 'unit': 'Unit', 'ptrself': 'Bytes', 'vref': 'Loc × Val', 'vroot': 'Val', 'bufself': 'Bytes', 'intotoken': 'Bytes', 'asrefptr': 'Bytes', 'docself': 'Val', 'val': 'Val', 'aref': 'Loc × List Val', 'oref': 'Loc × List (Bytes × Val)', 'assigned': 'Assigned', 'intoval': 'Val', 'resolveerr': 'ResolveErr', 'assignerr': 'AssignErr', 'bufref': 'Bytes', 'kvlist': 'List (Bytes × Val)', 'vallist': 'List Val'}
+          'intocow': 'Bytes', 'unit': 'Unit', 'ptrself': 'Bytes', 'vref': 'Loc × Val', 'vroot': 'Val', 'bufself': 'Bytes', 'intotoken': 'Bytes', 'asrefptr': 'Bytes', 'docself': 'Val', 'val': 'Val', 'aref': 'Loc × List Val', 'oref': 'Loc × List (Bytes × Val)', 'assigned': 'Assigned', 'intoval': 'Val', 'resolveerr': 'ResolveErr', 'assignerr': 'AssignErr', 'parseerror': 'ParseError', 'bufref': 'Bytes', 'kvlist': 'List (Bytes × Val)', 'vallist': 'List Val'}
 
 # enums the subset may match on / construct: type tag -> [(lean ctor, [rust paths], [field types])]
 ENUMS = {
@@ -418,6 +430,8 @@ class Fn:
                 if key in env:
                     ty = env[key]
                     return k(ty.split(':')[1], ty.split(':')[2])
+            if f == 'offset' and recv[0] == 'path' and len(recv[1]) == 1 and env.get(recv[1][0]) == 'encerr':
+                return k(f"{recv[1][0]}.offset", 'nat')
             if f == '0':
                 return self.E(recv, env, ctx, lambda a, ta: k(a, 'bytes' if ta == 'ptrself' else ta) if ta in ('ptr', 'ptrself') else (_ for _ in ()).throw(Unsupported("tuple field")))
             raise Unsupported("field ." + f)
@@ -756,6 +770,10 @@ class Fn:
                     c = self.fresh('c')
                     return k(f"(Option.map (fun {c} => ({r}.1 ++ [Step.key {a}], {c})) (lookup {a} {r}.2))", 'opt(vref)')
                 return self.E(args[0], env, ctx, aft_key)
+            if tr == 'parseerror' and self.spec.get('errns') == 'ParseError' and name in ('source_offset', 'pointer_offset', 'complete_offset') and not args:
+                return k(f"(ParseError.{name} {r})", 'nat')
+            if tr == 'parseerror' and self.spec.get('errns') == 'ParseError' and name == 'invalid_encoding_len' and len(args) == 1:
+                return self.E(args[0], env, ctx, lambda a, ta: k(f"(ParseError.invalid_encoding_len {r} {a})", 'nat') if ta in BYTESLIKE else self.bad("invalid_encoding_len(" + ta + ")"))
             if tr in ('resolveerr', 'assignerr') and name in ('position', 'offset') and not args and self.spec.get('errns'):
                 return k(f"({self.spec['errns']}.Error.{name} {r})", 'nat')
             if tr == 'bufref' and name == 'get' and len(args) == 1 and args[0][0] != 'range':
@@ -1020,6 +1038,31 @@ class Fn:
             sc2 = scruts[:col] + list(zip(parts, tys)) + scruts[col + 1:]
             inner = self.compile_match(rows2, sc2, env, body_k)
             return paren(pre + ind(inner)) if pre else inner
+        if ty == 'parseerror':
+            if any(not self.irrefutable(q) for i, q in enumerate(pats) if i != col): raise Unsupported("two refutable columns")
+            arms = {}
+            for (ps_, g, pl) in rows:
+                q = self.strip_ref(ps_[col])
+                if g is not None: raise Unsupported("guard on a ParseError pattern")
+                if q[0] == 'pwild':
+                    arms.setdefault('NoLeadingSlash', ({}, pl)); arms.setdefault('InvalidEncoding', ({}, pl)); continue
+                if q[0] not in ('ppath', 'pstruct'): raise Unsupported("pattern on a ParseError")
+                which = self.pathstr(q[1])
+                if which.split('::')[0] not in ('Self', 'ParseError') or which.split('::')[-1] not in ('NoLeadingSlash', 'InvalidEncoding'): raise Unsupported("pattern " + which)
+                binds = {}
+                for f, sp in (q[2] if q[0] == 'pstruct' else []):
+                    sp = self.strip_ref(sp)
+                    if f not in ('offset', 'source') or which.endswith('NoLeadingSlash'): raise Unsupported("field " + f + " of " + which)
+                    if sp[0] == 'pbind': binds[f] = sp[1]
+                    elif sp[0] != 'pwild': raise Unsupported("nested pattern in " + which)
+                arms.setdefault(which.split('::')[-1], (binds, pl))
+            if set(arms) != {'NoLeadingSlash', 'InvalidEncoding'}: raise Unsupported("non-exhaustive match on a ParseError")
+            o, so, kd = self.fresh('o'), self.fresh('so'), self.fresh('kd')
+            (b1, pl1), (b2, pl2) = arms['NoLeadingSlash'], arms['InvalidEncoding']
+            env2 = dict(env); pre = ''
+            if 'offset' in b2: env2[b2['offset']] = 'nat'; pre += f"let {b2['offset']} := {o}\n"
+            if 'source' in b2: env2[b2['source']] = 'encerr'; pre += f"let {b2['source']} := (EncErr.mk {so} {kd})\n"
+            return paren(f"match {s} with\n| .noLeadingSlash =>\n{ind(body_k(pl1, dict(env)))}\n| .invalidEncoding {o} {so} {kd} =>\n{ind(pre + body_k(pl2, env2))}")
         if ty == 'entry':
             # `map.entry(key)`: Occupied(e) — e is the member's place; Vacant(e) — e is (the map's place, the key)
             if any(not self.irrefutable(q) for i, q in enumerate(pats) if i != col): raise Unsupported("two refutable columns")
